@@ -86,7 +86,11 @@ GROUPS = {
     # conditional on the callees meeting their own model clause (spec64).
     'W': [('bid128_lrint.rs', 'bid128_lrint'), ('bid128_llrint.rs', 'bid128_llrint'),
           ('bid128_lround.rs', 'bid128_lround'), ('bid128_llround.rs', 'bid128_llround')],
+    # X: bid128_fdim over abstract bid128_quiet_greater and bid128_sub (GROUP_ABSTRACT: abstract for this group only, the
+    # comparison predicate is translated concretely by group G); conditional theorem in Impl/ImplWrapProofs.v
+    'X': [('bid128_fdim.rs', 'bid128_fdim')],
 }
+GROUP_ABSTRACT = {'X': {'bid128_sub': 'bid128_add.rs', 'bid128_quiet_greater': 'bid128_compare.rs'}}
 # helper functions translated in addition to the routines of a group (after them, so that the text generated for the
 # routines does not move): the shared lemma files ImplMul0.v / ImplDpd.v, which the files about the pack routines import,
 # mention these three helpers
@@ -155,6 +159,7 @@ def main(argv):
                          'functions that translate are still written')
     args = ap.parse_args(argv)
     support = []
+    group_abstract = {}
     if args.fn:
         wanted = [tuple(x.split(':', 1)) for x in args.fn]
     else:
@@ -167,11 +172,13 @@ def main(argv):
                     return 1
                 wanted += [w for w in GROUPS[g] if w not in wanted]
                 support += [w for w in GROUP_SUPPORT.get(g, []) if w not in support]
+                group_abstract.update(GROUP_ABSTRACT.get(g, {}))
     files = list(SUPPORT_FILES)
     for f, _ in wanted:
         if f not in files:
             files.append(f)
     abstract = dict(ABSTRACT)
+    abstract.update(group_abstract)
     for x in args.abstract:
         f, n = x.split(':', 1)
         abstract[n] = f
